@@ -302,6 +302,25 @@ def gen_tie_file():
                           pre=[("sig2coq.py", "GeneratedSig.v", "GenSigP.v")])
 
 
+HTTPX_THEOREMS = ["gen_extract_minor_version_eq_variant", "gen_extract_minor_version_spec", "gen_read_first_line_core", "gen_read_first_line_agree", "gen_read_first_line_eq_variant",
+                  "gen_read_first_line_ok", "gen_read_first_line_differs", "gen_read_headers_eq", "gen_read_payload_eq", "gen_HTTP_get_header_value_eq", "gen_HTTP_software_eq",
+                  "gen_HTTP_from_buffer_eq", "gen_http_parse_version_eq", "gen_http_parse_headers_eq", "gen_HTTPSignature_parse_eq", "gen_HTTPSignature_header_names_occur",
+                  "C07_translated_request_line", "C07_translated_status_line", "C07_translated_headers", "C07_translated_roundtrip", "C07_translated_reject_method",
+                  "C07_translated_version_variant", "C07_translated_version_all", "C07_translated_reject_no_colon", "C07_translated_reject_empty_name",
+                  "C07_translated_reject_no_colon_first", "C07_translated_reject_empty_name_first", "C07_translated_reject_orphan_continuation", "C07_translated_total",
+                  "C07_translated_example", "C09_translated_http_sig_roundtrip", "C09_translated_http_sig_roundtrip_ascii"]
+
+
+def gen_tie_httpx():
+    """net/layers/http/read.py (first line, header lines with continuations, read_payload), header.py / http.py (lower_name, _get_header_value, software,
+    from_buffer) and database/signatures/http.py (HTTPSignature.parse, _parse_headers, _parse_version, header_names) -> Gallina (translate/http2coq.py, on top of
+    sig2coq), proved equal to Model/HttpRead.v / Model/SigParse.v (coq/Gen/GenHttpP.v), corollaries for C07 / C09 in coq/Gen/GenHttpC.v."""
+    return gen_tie_single("httpx", "http2coq.py", "GeneratedHttp.v", ["GenHttpP.v", "GenHttpC.v"], HTTPX_THEOREMS,
+                          ["Model/Text.v", "Model/SigParse.v", "Model/DbParse.v", "Model/HttpRead.v", "Model/HttpMatch.v", "Model/Dump.v", "Spec/C07.v", "Proofs/TextP.v",
+                           "Proofs/HttpReadP.v", "Proofs/HttpSigP.v", "../translate/sig2coq.py"],
+                          pre=[("sig2coq.py", "GeneratedSig.v", "GenSigP.v")])
+
+
 # --------------------------------------------------------------------------- model side
 
 def run_model(lines):
@@ -432,6 +451,8 @@ def run_check(prop, tier, replay=None):
                 ties.append(("Gen/GenImpP.v:", "Gen/GenImpP.v", " && translate/imp2coq.py /repo coq/Gen/GeneratedImp.v && coqc Gen/GeneratedImp.v Gen/GenImpP.v Gen/GenImpC.v", gen_tie_imp()))
             if "sig" in spec:
                 ties.append(("Gen/GenSigP.v:", "Gen/GenSigP.v", " && translate/sig2coq.py /repo coq/Gen/GeneratedSig.v && coqc Gen/GeneratedSig.v Gen/GenSigP.v Gen/GenSigC.v", gen_tie_sig()))
+            if "httpx" in spec:
+                ties.append(("Gen/GenHttpP.v:", "Gen/GenHttpP.v", " && translate/http2coq.py /repo coq/Gen/GeneratedHttp.v && coqc Gen/GeneratedHttp.v Gen/GenHttpP.v Gen/GenHttpC.v", gen_tie_httpx()))
             if "file" in spec:
                 ties.append(("Gen/GenFileP.v:", "Gen/GenFileP.v", " && translate/file2coq.py /repo coq/Gen/GeneratedFile.v && coqc Gen/GeneratedFile.v Gen/GenFileP.v Gen/GenFileC.v", gen_tie_file()))
             proof["gen_tie"] = {}
@@ -625,6 +646,11 @@ def run_check(prop, tier, replay=None):
         if "sig" in spec:
             tb.append("translator translate/sig2coq.py (database/parse/utils.py, wildcard.py, signatures/tcp.py, signatures/mtu.py -> text/res monad): its reading of the subset, "
                       "int() = py_int, str methods = Model/Text.v list functions, module tables by evaluation; Gen/GenSigP.v + GenSigC.v re-checked on every run")
+        if "httpx" in spec:
+            tb.append("translator translate/http2coq.py (read.py, header.py, http.py, signatures/http.py -> text/res monad): its reading of the subset; ASSUMED primitives, each read "
+                      "LITERALLY from the source and refused if different: the regex ^HTTP/1\\.(?P<version>\\d)$ (as Python applies it: `$` also matches before one trailing LF), "
+                      "the regex ,(?![^\\[]*\\]) = the model's hsplit, h11's maybe_extract_lines = the model's extract_lines, bytes.split(None, 2) / strip / lower / partition = "
+                      "Model/Text.v + Model/HttpRead.v functions; Gen/GenHttpP.v + GenHttpC.v re-checked on every run")
         if "file" in spec:
             tb.append("translator translate/file2coq.py + db2coq.py (parser.py's line loop / _parse_section, labels/*.py, records/*.py, records_database.py create/add -> step function over "
                       "a generated state): its reading of the subset; ASSUMED: HTTPSignature.parse = the model's parse_http_sig, a dict = insertion-ordered association list, "
